@@ -50,6 +50,16 @@ impl<'a, T> MutexGuard<'a, VecDeque<T>> {
     #[verifier::external_body]
     pub fn push_front(&mut self, t: T) ensures final(self)@ == seq![t] + old(self)@ { unimplemented!() }
     #[verifier::external_body]
+    pub fn pop_back(&mut self) -> (r: Option<T>)
+        ensures old(self)@.len() == 0 ==> r.is_none() && final(self)@ == old(self)@,
+            old(self)@.len() > 0 ==> r == Some(old(self)@.last()) && final(self)@ == old(self)@.drop_last(),
+    { unimplemented!() }
+    #[verifier::external_body]
+    pub fn pop_front(&mut self) -> (r: Option<T>)
+        ensures old(self)@.len() == 0 ==> r.is_none() && final(self)@ == old(self)@,
+            old(self)@.len() > 0 ==> r == Some(old(self)@.first()) && final(self)@ == old(self)@.subrange(1, old(self)@.len() as int),
+    { unimplemented!() }
+    #[verifier::external_body]
     pub fn back(&self) -> (r: Option<&T>)
         ensures self@.len() == 0 ==> r.is_none(), self@.len() > 0 ==> r.is_some() && *r.unwrap() == self@.last(),
     { unimplemented!() }
